@@ -1272,6 +1272,11 @@ var _ rpc.Resources
 // new service request on the closed connection's behalf)
 //@   assert[C11] c.serv.cache.Call#1: !c.disposing
 //@   assert[C05,C10] c.serv.cache.Call#1: err == nil && arg0 == c && arg1 == sub.resourceName && arg2 == sub.resourceQuery && arg3 == action && arg4 == c.token && arg5 == params && !arg6
+// (without a subscription no re-access trigger reaches the access check: a verdict asked for
+// before the token was replaced decides nothing - nobody is told, and the call is started over)
+//@   assert[C05] c.serv.cache.Call#1: !ok ==> tokenSeq == c.tokenSeq
+//@   assert[C05] cb#*: !ok ==> tokenSeq == c.tokenSeq
+//@   assert[C05] c.call#1: arg0 == rid && arg1 == action && arg2 == params
 //@   safety[C15]
 //@ closure (*wsConn).call#2
 //@   requires c != nil
@@ -1374,7 +1379,7 @@ var _ rpc.Resources
 // What stays untouched while only access bookkeeping of subscriptions changes.
 //@ define predSubsStable() bool = (forall x *Subscription :: x.direct == old(x.direct) && x.state == old(x.state)) &&
 //@     (forall m map[string]*Subscription, r string :: has(m, r) == old(has(m, r)) && m[r] == old(m[r])) &&
-//@     (forall k *wsConn :: k.subs == old(k.subs) && k.disposing == old(k.disposing) && k.token == old(k.token) && k.tid == old(k.tid) && k.ws == old(k.ws)) &&
+//@     (forall k *wsConn :: k.subs == old(k.subs) && k.disposing == old(k.disposing) && k.token == old(k.token) && k.tid == old(k.tid) && k.tokenSeq == old(k.tokenSeq) && k.ws == old(k.ws)) &&
 //@     (forall x *Subscription :: x.resourceSub == old(x.resourceSub) && x.eventQueue == old(x.eventQueue)) &&
 //@     (forall x *Subscription :: backing(x.eventQueue) == old(backing(x.eventQueue)))
 
@@ -1641,11 +1646,14 @@ var _ rpc.Resources
 //@   requires predConnOK(c)
 //@   assumes predSubsOK(c)
 //@   ensures[C06,C10] c.tid == tid && c.token == token
+// (replacing a set token is counted: access checks that no trigger can reach compare the count)
+//@   ensures[C05] c.tokenSeq == old(c.tokenSeq) + ite(old(c.token) != nil, 1, 0)
 //@   ensures[C04,C05,C06] old(c.token) != nil ==> (forall r string :: has(c.subs, r) && c.subs[r].state != stateDisposed ==>
 //@       c.subs[r].access == nil)
 //@   ensures[C06] old(c.token) == nil ==> (forall x *Subscription :: x.access == old(x.access) && x.flags == old(x.flags) && x.queueFlag == old(x.queueFlag))
 //@   safety[C15]
 //@   loop 1 invariant c.tid == tid && c.token == token && old(c.token) != nil && c.subs == old(c.subs)
+//@   loop 1 invariant c.tokenSeq == old(c.tokenSeq) + 1
 //@   loop 1 invariant forall r string :: has(c.subs, r) ==> c.subs[r] != nil && c.subs[r].c == c
 //@   loop 1 invariant forall r string :: visited1[r] && has(c.subs, r) && c.subs[r].state != stateDisposed ==> c.subs[r].access == nil
 
